@@ -157,3 +157,9 @@ package execution
 //@        (forall d model.BuildNode :: {edge(e.graph, d, tnode(target))} edge(e.graph, d, tnode(target)) && typeIs(d, "*model.Target") ==> asPtr(d, "*model.Target").OutputsLoaded) &&
 //@        (forall a model.BuildNode, d model.BuildNode :: {edge(e.graph, a, tnode(target)), edge(e.graph, d, a)} edge(e.graph, a, tnode(target)) && !typeIs(a, "*model.Target") && edge(e.graph, d, a) && typeIs(d, "*model.Target") ==> asPtr(d, "*model.Target").OutputsLoaded)
 //@   before_call executeTarget#1 [exec_only_if] e.loadOutputsMode == config.LoadOutputsMinimal || lastLoadNil || lastIsTainted || inSlice(target.Tags, "no-cache") || !e.enableCache || !target.checksOK || (target.restoreTried && !target.restored)
+
+//@ func NewExecutor(targetCache, taintCache, registry, graph, failFast, streamLogs, enableCache, loadOutputsMode) (e)
+//@   pure
+//@   allocates e
+//@   ensures [fields] e != nil && e.graph == graph && e.targetHasher != nil && e.targetHasher.graph == graph && e.enableCache == enableCache && e.loadOutputsMode == loadOutputsMode && e.failFast == failFast &&
+//@        e.targetCache == targetCache && e.taintCache == taintCache && e.registry == registry
